@@ -35,6 +35,10 @@ func TestVFC01Runtime(t *testing.T) {
 		if c.Protection != "on" && c.Protection != "off" {
 			c.Protection = "on"
 		}
+		c.CacheOn = rapid.Bool().Draw(t, "dns_cache")
+		if c.CacheOn {
+			vfC01.Class("rt:dns_cache_on")
+		}
 		handlers := map[string]http.HandlerFunc{}
 		wc := c.world()
 		wc.LocalListURLs = true
